@@ -483,6 +483,39 @@ impl<'tcx> Cx<'tcx> {
         if matches!(tcx.def_kind(def), DefKind::Fn | DefKind::AssocFn) {
             o.push(("vis", J::Str(format!("{:?}", tcx.visibility(def)))));
         }
+        // generic type parameters in substitution order (parents first)
+        {
+            let root = tcx.typeck_root_def_id(def);
+            let mut names: Vec<J> = Vec::new();
+            let mut chain = Vec::new();
+            let mut g = Some(tcx.generics_of(root));
+            while let Some(gen) = g {
+                chain.push(gen);
+                g = gen.parent.map(|p| tcx.generics_of(p));
+            }
+            for gen in chain.iter().rev() {
+                for p in &gen.own_params {
+                    if matches!(p.kind, ty::GenericParamDefKind::Type { .. } | ty::GenericParamDefKind::Const { .. }) {
+                        names.push(J::Str(p.name.to_string()));
+                    }
+                }
+            }
+            o.push(("generics", J::Arr(names)));
+        }
+        if matches!(tcx.def_kind(def), DefKind::Closure) {
+            if let Some(ldid) = def.as_local() {
+                let mut ups = Vec::new();
+                for cap in tcx.closure_captures(ldid) {
+                    let t = cap.place.ty();
+                    ups.push(J::obj(vec![
+                        ("n", J::Str(cap.var_ident.name.to_string())),
+                        ("t", J::Str(self.ty(t))),
+                        ("by_ref", J::Bool(matches!(cap.info.capture_kind, ty::UpvarCapture::ByRef(_)))),
+                    ]));
+                }
+                o.push(("upvars", J::Arr(ups)));
+            }
+        }
         // enclosing impl (trait + self type) for associated fns
         if let Some(parent) = tcx.opt_parent(def) {
             if matches!(tcx.def_kind(parent), DefKind::Impl { .. }) {
